@@ -21,6 +21,15 @@ type PropConfig struct {
 	Verify []string `json:"verify"` // extra function key globs to put under verification
 	SweepReachable []string `json:"sweep_reachable_from"` // sweep every in-repo function statically reachable from these
 	Note   string   `json:"note"`
+	// ForbidLookup: in the named functions, every lookup / range / update on a map of the given
+	// type must provably use a key different from Key (a "reads" obligation; C06: Bcc is never read by the renderer)
+	ForbidLookup []Forbid `json:"forbid_lookup"`
+}
+
+type Forbid struct {
+	MapType   string   `json:"map_type"`
+	Key       string   `json:"key"`
+	Functions []string `json:"functions"`
 }
 
 type LockFile struct {
@@ -103,6 +112,15 @@ func (c *Ctx) functionSet(prop string, cfg *PropConfig) (fns []*ssa.Function, sw
 			work = append(work, c.Frames.fb.static[fn]...)
 			for _, a := range fn.AnonFuncs {
 				work = append(work, a)
+			}
+		}
+	}
+	for _, f := range cfg.ForbidLookup {
+		for _, fn := range all {
+			for _, pat := range f.Functions {
+				if globMatch(pat, c.keyOf(fn)) {
+					set[fn] = true
+				}
 			}
 		}
 	}
@@ -262,7 +280,15 @@ func cmdCheck(args []string) int {
 	var outOfSub []string
 	nq := 0
 	for _, fn := range fns {
-		g, err := c.gen(fn, *prop)
+		var forb []Forbid
+		for _, f := range cfg.ForbidLookup {
+			for _, pat := range f.Functions {
+				if globMatch(pat, c.keyOf(fn)) {
+					forb = append(forb, f)
+				}
+			}
+		}
+		g, err := c.genWith(fn, *prop, forb)
 		if err != nil {
 			genErrs = append(genErrs, err.Error())
 			continue
